@@ -772,6 +772,63 @@ fn eviction_bound(ctx: &Ctx, acc: &Accum, rounds: u64) -> Option<i32> {
     None
 }
 
+/// C14: one store that has to evict races a client deleting small unrelated records (the map shrinks between
+/// the policy's count of records and its removal pass, so a pass may remove nothing). At quiescence the stored
+/// bytes are within the limit plus the record just written.
+fn eviction_vs_delete(ctx: &Ctx, acc: &Accum, rounds: u64) -> Option<i32> {
+    let limit = 10 * 1024u64;
+    let mut x: u64 = 0x9e37_79b9_7f4a_7c15 ^ ctx.seed;
+    for round in 0..rounds {
+        let stack = Arc::new(Stack::new(Policy::Random(limit)));
+        let mut w0 = Worker::new(&stack);
+        let smalls: Vec<Vec<u8>> = (0..20).map(|i| format!("small-{}", i).into_bytes()).collect();
+        for k in &smalls {
+            w0.exec(&Cmd::set(k, b"s", 0, 0));
+        }
+        let bigs: Vec<Vec<u8>> = (0..10).map(|i| format!("big-{}", i).into_bytes()).collect();
+        for k in &bigs {
+            w0.exec(&Cmd::set(k, &vec![b'x'; 1030], 0, 0));
+        }
+        x ^= x << 13;
+        x ^= x >> 7;
+        x ^= x << 17;
+        let delay = x % 4000;
+        let go = Arc::new(AtomicBool::new(false));
+        std::thread::scope(|s| {
+            let (stack2, go2, smalls2) = (stack.clone(), go.clone(), smalls.clone());
+            s.spawn(move || {
+                let mut w = Worker::new(&stack2);
+                while !go2.load(Ordering::Acquire) {
+                    std::hint::spin_loop();
+                }
+                for _ in 0..delay {
+                    std::hint::spin_loop();
+                }
+                for k in &smalls2 {
+                    w.exec(&Cmd::new(Kind::Delete, k));
+                }
+            });
+            go.store(true, Ordering::Release);
+            w0.exec(&Cmd::set(b"new-record", &vec![b'n'; 1000], 0, 0));
+        });
+        let mut total = stack.physical_len(b"new-record").unwrap_or(0);
+        for k in smalls.iter().chain(bigs.iter()) {
+            total += stack.physical_len(k).unwrap_or(0);
+        }
+        acc.evaluations.fetch_add(1, Ordering::Relaxed);
+        if total as u64 > limit + 1024 {
+            return Some(violation(
+                ctx,
+                "bound_after_store_vs_delete",
+                format!("round {}: a 1024-byte store that had to evict ran concurrently with deletes of 20 small records; with no command in progress {} bytes are stored under a limit of {} (+ the record just written = {})", round, total, limit, limit + 1024),
+                json!({"scenario": "eviction_vs_delete", "round": round, "total": total}),
+            ));
+        }
+    }
+    acc.count("stress_eviction_vs_delete_rounds", rounds);
+    None
+}
+
 /// C14: many threads read the same just-expired items at once (racing their lazy collection), then fresh
 /// keys are stored sequentially. The accounting may over-count after expiries (known finding K4) but must
 /// never UNDER-count, or the stored bytes leave the bound.
@@ -1061,7 +1118,7 @@ pub fn phase(ctx: &Ctx, acc: &Accum, prop: &str) -> Option<i32> {
         "C04" => rmw(ctx, acc, if q { 6_000 } else { 40_000 }, if q { 200 } else { 3000 }).or_else(|| rmw_private(ctx, acc, if q { 40_000 } else { 400_000 }, if q { 100_000 } else { 300_000 })).or_else(|| rmw_over_tcp(ctx, acc, if q { 400 } else { 4000 })),
         "C16" => progress(ctx, acc, if q { 4 } else { 30 }),
         "C15" => accounting_concurrent(ctx, acc, if q { 3000 } else { 60_000 }).or_else(|| expired_readers_concurrent(ctx, acc, if q { 1500 } else { 30_000 })),
-        "C14" => eviction_bound(ctx, acc, if q { 3 } else { 60 }).or_else(|| expiry_concurrent(ctx, acc, if q { 40 } else { 800 })),
+        "C14" => eviction_bound(ctx, acc, if q { 3 } else { 60 }).or_else(|| expiry_concurrent(ctx, acc, if q { 40 } else { 800 })).or_else(|| eviction_vs_delete(ctx, acc, if q { 1500 } else { 60_000 })),
         _ => None,
     };
     acc.inner.lock().unwrap().phases.push(json!({"phase": format!("os-scheduled-stress-{}", prop), "wall_s": t0.elapsed().as_secs_f64(), "threads": THREADS}));
